@@ -260,6 +260,11 @@ def linear_interpolation(
 def conservative_interpolation(
     phi, theta, target_theta_levels, phi_dim, theta_dim, target_dim, **kwargs
 ):
+    # the new dimension gets a temporary name that no input dimension has
+    remapped = "remapped"
+    while remapped in set(phi.dims) | set(theta.dims) | set(target_theta_levels.dims):
+        remapped = "_" + remapped
+
     out = xr.apply_ufunc(
         interp_1d_conservative,
         phi,
@@ -267,12 +272,12 @@ def conservative_interpolation(
         target_theta_levels,
         kwargs=kwargs,
         input_core_dims=[[phi_dim], [theta_dim], [target_dim]],
-        output_core_dims=[["remapped"]],
+        output_core_dims=[[remapped]],
         dask="parallelized",
-        dask_gufunc_kwargs={"output_sizes": {"remapped": len(target_theta_levels) - 1}},
+        dask_gufunc_kwargs={"output_sizes": {remapped: len(target_theta_levels) - 1}},
         # Since we are introducing a new dimension instead of changing it we need to declare the output size.
         output_dtypes=[_kernel_dtype(phi, theta, target_theta_levels)],
-    ).rename({"remapped": target_dim})
+    ).rename({remapped: target_dim})
 
     # assign the target cell center
     target_centers = (target_theta_levels.data[1:] + target_theta_levels.data[:-1]) / 2
